@@ -334,8 +334,8 @@ def ty(e):
         if bint_var not in t.inputs or diag_var not in t.inputs:
             raise IllTyped("independent vars missing")
         bd, dd = t.inputs[bint_var], t.inputs[diag_var]
-        if not isinstance(bd[0], int) or bd[1] != () or len({reals_var, bint_var, diag_var}) != 3:
-            raise IllTyped("independent")
+        if not isinstance(bd[0], int) or bd[1] != () or bint_var == diag_var:
+            raise IllTyped("independent")  # reals_var may be spelled like one of the two bound names
         if t.out[0] != "real":
             raise IllTyped("independent of an integer-valued term (the sum would leave the declared range)")
         inputs = {k: v for k, v in t.inputs.items() if k not in (bint_var, diag_var)}
